@@ -46,6 +46,34 @@ def run(tier, seed, ev):
                     v = (struct.unpack_from("<H", h, off)[0] + d) & 0xFFFF
                     cases.append(h[:off] + struct.pack("<H", v) + h[off + 2:])
         ev.cls(("base", h[20], len(h)))
+    # the whole (header length, path length) grid of level 0/1 with the checksum byte made consistent: the
+    # integrity rule must then hold or fail on the *length arithmetic* alone (incl. its 8-bit edges)
+    body = bytes((i * 7 + 3) & 0xFF for i in range(300))
+    step = 1 if tier == "thorough" else 3
+    for lvl in (0, 1):
+        for hl in list(range(0, 256, step)) + [255, 254, 22, 25, 24, 21]:
+            for pl in list(range(0, 256, step)) + [255, 231, 232, 233, 234, 230, 229]:
+                h = bytearray(b"\0\0-lh0-" + b"\x04\0\0\0" + b"\x04\0\0\0" + b"\0\0\0\0" + b"\x20" + bytes([lvl, pl]) + body)
+                h[0] = hl
+                if lvl == 1 and 2 + hl <= len(h) and hl >= 2:
+                    h[hl] = 0; h[hl + 1] = 0          # next-header size 0 where a level-1 header would end
+                h[1] = sum(h[2:2 + hl]) & 0xFF
+                cases.append(bytes(h))
+    ev.set("length_grid_cases", len(cases))
+    # level 2 / 3: total length x first extended size, consistent with the common CRC absent
+    for lvl in (2, 3):
+        for total in list(range(0, 80)) + [255, 256, 257, 65535]:
+            for first in (0, 1, 2, 3, 4, 5, 6, 7, 20, 40, 65535):
+                try:
+                    h = bytearray(arc.Member(level=lvl, method=b"-lh0-", payload=b"data", os=ord("U"), exts=[arc.x_name(b"nm"), arc.x_perm(0o644)], fix_common=False).bytes() + body)
+                except Exception:
+                    continue
+                import struct as _st
+                if lvl == 2:
+                    _st.pack_into("<H", h, 0, total); _st.pack_into("<H", h, 24, first)
+                else:
+                    _st.pack_into("<I", h, 24, total); _st.pack_into("<I", h, 28, first)
+                cases.append(bytes(h))
     # plus sparse mutations of many more random headers
     for i in range(200 if tier == "quick" else 3000):
         h = HG.wellformed_header(rng)
